@@ -61,4 +61,32 @@ Section Get.
     | [] => Ok n
     | sg :: r => do v <- step_deref n sg; get v r
     end.
+
+  (* Focus (get with trackProgress) started from a Progress that already carries a path: the reported path is the
+     carried path followed by the focused one; LastBlock becomes (p.Truncate(i+1), link) of the last link loaded on the
+     way — a path RELATIVE to the node the focus started from, as coded — or stays what it was when no link is crossed *)
+  Fixpoint deref_last (fuel : nat) (v : dm) (last : option bytes) : res gerr (dm * option bytes) :=
+    match v with
+    | DLink c => match fuel with
+                 | O => Err GFuel
+                 | S f => match assoc c g with None => Err GLoad | Some b => deref_last f b (Some c) end
+                 end
+    | _ => Ok (v, last)
+    end.
+
+  Fixpoint get_last (n : dm) (done p : list seg) (lb : option (list seg * bytes))
+    : res gerr (dm * option (list seg * bytes)) :=
+    match p with
+    | [] => Ok (n, lb)
+    | sg :: r =>
+        do v <- step n sg;
+        do vl <- deref_last (S (length g)) v None;
+        let done' := done ++ [sg] in
+        get_last (fst vl) done' r (match snd vl with Some c => Some (done', c) | None => lb end)
+    end.
+
+  (* node reached, reported Progress.Path, new LastBlock (None = unchanged) *)
+  Definition focus_from (pre : list seg) (n : dm) (q : list seg)
+    : res gerr (dm * list seg * option (list seg * bytes)) :=
+    do r <- get_last n [] q None; Ok (fst r, pre ++ q, snd r).
 End Get.
